@@ -286,3 +286,119 @@ func verifDeepEq(a, b reflect.Value, path string) (bool, string) {
 	}
 	return true, ""
 }
+
+// ---- the traveller-bot protocol: promises planner and journey planner (C20) ----
+
+// VerifPlanner wraps a promisesPlanner built for one band.
+type VerifPlanner struct{ p *promisesPlanner }
+
+// VerifNewPromisesPlanner builds a promises planner with a flat fly probability.
+func VerifNewPromisesPlanner(flyProb float64, totalDays flap.Days) (*VerifPlanner, error) {
+	p := new(promisesPlanner)
+	var fp flap.FlapParams
+	fp.Promises.MaxDays = totalDays
+	err := p.build(BotSpec{FlyProbability: Probability(flyProb), Weight: 1}, fp, ModelParams{})
+	return &VerifPlanner{p}, err
+}
+
+// PrepareDays calls prepareWeights and returns the scale it built as (index, cumulative weight) pairs.
+func (v *VerifPlanner) PrepareDays(fe *flap.Engine, pp flap.Passport, currentDay flap.Days, length flap.Days, dayOfModel flap.Days) ([][2]int64, error) {
+	err := v.p.prepareWeights(fe, pp, currentDay, length, dayOfModel)
+	out := make([][2]int64, 0, len(v.p.Scale))
+	for _, e := range v.p.Scale {
+		out = append(out, [2]int64{int64(e.I), int64(e.W)})
+	}
+	return out, err
+}
+
+// VerifNotPlanning is the index of the final "not planning" entry of the scale.
+const VerifNotPlanning = NOTPLANNING
+
+// WhenWillWeFly calls whenWillWeFly with the given cached dice roll.
+// Result code: 0 planned, 1 no space for trip, 4 not planning today, 2 any other error.
+func (v *VerifPlanner) WhenWillWeFly(fe *flap.Engine, pp flap.Passport, now flap.EpochTime, from flap.ICAOCode, to flap.ICAOCode, length flap.Days, dayOfModel flap.Days, chosenWeight int64) (flap.EpochTime, int) {
+	v.p.chosenWeight = weight(chosenWeight)
+	ts, err := v.p.whenWillWeFly(fe, pp, now, from, to, length, dayOfModel)
+	switch err {
+	case nil:
+		return ts, 0
+	case ENOSPACEFORTRIP:
+		return ts, 1
+	case ENOTPLANNINGTODAY:
+		return ts, 4
+	}
+	return ts, 2
+}
+
+// VerifJourneyPlanner wraps a journeyPlanner.
+type VerifJourneyPlanner struct{ jp *journeyPlanner }
+
+// VerifNewJourneyPlanner opens or creates the journey planner table.
+func VerifNewJourneyPlanner(database db.Database) (*VerifJourneyPlanner, error) {
+	jp, err := NewJourneyPlanner(database)
+	return &VerifJourneyPlanner{jp}, err
+}
+
+// PlanTrip calls planTrip.
+func (v *VerifJourneyPlanner) PlanTrip(from flap.ICAOCode, to flap.ICAOCode, length flap.Days, pp flap.Passport, startOfDay flap.EpochTime, fe *flap.Engine) error {
+	return v.jp.planTrip(from, to, length, pp, startOfDay, fe)
+}
+
+// VerifPlanned is one record of the journey planner table.
+type VerifPlanned struct {
+	Passport flap.Passport
+	Journeys []VerifJourney
+}
+
+// JourneysOn lists the records planned for the given day in iteration order.
+func (v *VerifJourneyPlanner) JourneysOn(date flap.EpochTime) ([]VerifPlanned, error) {
+	it, err := v.jp.NewIterator(date)
+	if err != nil {
+		return nil, err
+	}
+	var out []VerifPlanned
+	for it.Next() {
+		pd := it.Value()
+		p, err := it.Passport()
+		if err != nil {
+			return out, err
+		}
+		rec := VerifPlanned{Passport: p}
+		for _, j := range pd.journies {
+			rec.Journeys = append(rec.Journeys, verifFromJourney(j))
+		}
+		out = append(out, rec)
+	}
+	return out, it.Release()
+}
+
+// VerifBots wraps a TravellerBots value with one statistics row per band.
+type VerifBots struct{ tb *TravellerBots }
+
+// VerifNewBots creates n bands with empty statistics.
+func VerifNewBots(n int) *VerifBots {
+	tb := new(TravellerBots)
+	tb.bots = make([]travellerBot, n)
+	for i := range tb.bots {
+		tb.bots[i].stats.newRow()
+	}
+	return &VerifBots{tb}
+}
+
+// Counts returns flights taken and refused and the distance flown by a band so far.
+func (v *VerifBots) Counts(band int) (uint64, uint64, float64) {
+	r := v.tb.bots[band].stats.Rows
+	var taken, refused uint64
+	var dist float64
+	for _, row := range r {
+		taken += row.FlightsTaken
+		refused += row.FlightsRefused
+		dist += float64(row.Distance)
+	}
+	return taken, refused, dist
+}
+
+// SubmitFlights calls journeyPlanner.submitFlights for the given day.
+func (v *VerifJourneyPlanner) SubmitFlights(tb *VerifBots, fe *flap.Engine, startOfDay flap.EpochTime, debit bool) error {
+	return v.jp.submitFlights(tb.tb, fe, startOfDay, nil, debit)
+}
